@@ -104,7 +104,7 @@ func (i *interpreter) equalsV(t types.Type, x, y value) value {
 		return x == y.(complex64)
 	case complex128:
 		return x == y.(complex128)
-	case string, *symstr, *fdstr, *ropestr:
+	case string, *symstr, *fdstr, *ropestr, *decTerm:
 		return i.strEq(x, y)
 	case *value:
 		return x == y.(*value)
